@@ -212,6 +212,16 @@ def run_scenario(scn):
     Q = scn.get("Q") or []
     passI = scn.get("pass_I", scn["mode"] == "pre")
     model = build_model(scn)
+    if scn.get("prefit"):
+        # the same object has been fitted before, on other data (a refit / reuse across folds): nothing of that may leak
+        pf = scn["prefit"]
+        try:
+            if scn["kind"] == "unsup":
+                model.fit(np.array(pf["X"], dtype=float), np.array(pf["Y"], dtype=int))
+            else:
+                model.fit(np.array(pf["X"], dtype=float), np.array(pf["Y"], dtype=int), np.array(pf["Xv"], dtype=float), np.array(pf["Yv"], dtype=int))
+        except Exception as ex:
+            return None, ("exception", "%s: %s" % (type(ex).__name__, str(ex)[:200]))
     CTX.update(on=True, model=model, snaps=[], log=[], nheaps=0)
     try:
         try:
@@ -505,7 +515,13 @@ def random_scenario(rng, kind, metric="euclidean", n=None, nq=5, lattice=False, 
     if yv:
         yv[0] = max(y)  # opf_accuracy's domain: predictions within the range of the true (validation) labels
     mode = mode or ("metric" if kind == "knn" else rng.choice(["metric", "metric", "pre"]))
+    prefit = None
+    if mode == "metric" and rng.random() < 0.2:
+        pyy = [j % 2 for j in range(8)]
+        prefit = {"X": (np.abs(r.normal(size=(8, dim))) * 0.1 + 1.0 + 10.0 * np.array(pyy)[:, None]).tolist(), "Y": pyy,
+                  "Xv": (np.abs(r.normal(size=(4, dim))) * 0.1 + 1.0 + 10.0 * np.array([0, 1, 0, 1])[:, None]).tolist(), "Yv": [0, 1, 0, 1]}
     return {
+        "prefit": prefit,
         "kind": kind,
         "mode": mode,
         "metric": metric,
